@@ -515,16 +515,19 @@ PROPS["C06"] = dict(
               "BB.Props.C06.no_second_copy_in_a_round", "BB.Props.C06.pongs_match_receptions", "BB.Props.C06.send_returns_after_all_acks",
               "BB.Props.C06.no_subscription_during_send_phase", "BB.Props.C06.send_zero_when_nobody",
               "BB.Props.C06.received_message_is_next_in_order", "BB.Props.C06.subscription_starts_after_current_log",
-              "BB.Props.C06.global_order_grows_by_arming", "BB.PubSub.pinv123_reach"],
+              "BB.Props.C06.global_order_grows_by_arming", "BB.PubSub.pinv123_reach",
+              "BB.Props.C06.history_observer_is_passive", "BB.Props.C06.subscription_sees_contiguous_run", "BB.Props.C06.ith_reception_is_ith_position",
+              "BB.Props.C06.common_messages_agree", "BB.Props.C06.armed_send_has_its_own_position", "BB.Props.C06.later_send_is_later_in_order",
+              "BB.PubSub.hinv_reach"],
     corr=[dict(family="pubsub", quick=150, thorough=6000, monitor=ps_monitor, no_shrink=True,
                nontrivial=has("absorb", "unsub_during_send_phase", "deliver_iter", "unsub_between_ping_add_and_cas", "cas_failed_by_racing_unsubscribe", "send_returned_zero_after_lock", "forced_schedule_reached"),
                rule=_PS_RULE + "; non-trivial = an unsubscribe absorbing its copy during the send phase, iterator deliveries, a Send that finds everybody gone after locking")],
     assumptions=["sync.Mutex / RWMutex / Cond / atomics semantics modelled; TryRLock may fail whenever a Send holds or awaits sendingMu (spurious failures only add spinning)",
                  "the embedded caster's own RWMutex is not modelled (only the holder of sendMu ever takes it)",
                  "subscribers follow the documented contract (receive then Wait; unsubscribe only between rounds; no receive while unsubscribing)"],
-    open_statements=["the order clauses are proved as a step property (received_message_is_next_in_order: the received message is the last element of the global order and "
-                     "its position is the one the subscription expects next); the corollary 'the list of positions a subscription received is a consecutive run' is not "
-                     "stated separately as a theorem about whole histories"],
+    open_statements=["whole-history order is proved over the model extended with a passive observer (start position, values seen, arming position): "
+                     "subscription_sees_contiguous_run; the observer is shown not to change the behaviours (history_observer_is_passive); "
+                     "the observer itself is not part of the Go code: the T3 oracle compares received values with the model's per-subscription expectation"],
 )
 PROPS["C07"] = dict(
     lean_targets=["BB.Props.C07"],
